@@ -368,6 +368,12 @@ func observe(w *vkit.World, entry vkit.Entry, l logical) (observation, error) {
 		}
 
 		o.View[h] = v
+
+		// a header handed over with an empty value (a template which renders to nothing for this request) is still handed over
+		if len(vals) != 0 && v == "" {
+			o.View[h] = "<present, empty>"
+			vkit.S.Label("pipeline_header_with_empty_value")
+		}
 	}
 
 	// pipeline cookies
